@@ -34,6 +34,11 @@ fn forms() -> Vec<(String, usize, Box<dyn Fn(&[T]) -> T>)> {
     f.push(("let_decl".into(), 2, Box::new(|s| T::Let("y".into(), Ty::List, b(s[0].clone()), b(s[1].clone())))));
     f.push(("call0".into(), 0, Box::new(|_| T::Call("f".into(), vec![]))));
     f.push(("call2".into(), 2, Box::new(|s| T::Call("f".into(), vec![s[0].clone(), s[1].clone()]))));
+    // (argument lists of length one: the parentheses of the list and those of a parenthesized
+    // argument are adjacent)
+    f.push(("call1".into(), 1, Box::new(|s| T::Call("f".into(), vec![s[0].clone()]))));
+    f.push(("ctor1".into(), 1, Box::new(|s| T::Ctor("T1".into(), vec![s[0].clone()]))));
+    f.push(("dtor1".into(), 2, Box::new(|s| T::Dtor(b(s[0].clone()), "ap".into(), "[i64, i64]", vec![s[1].clone()]))));
     f.push(("ctor0".into(), 0, Box::new(|_| T::Ctor("Nil".into(), vec![]))));
     f.push(("ctor2".into(), 2, Box::new(|s| T::Ctor("Cons".into(), vec![s[0].clone(), s[1].clone()]))));
     f.push(("case0".into(), 1, Box::new(|s| T::Case(b(s[0].clone()), "", vec![]))));
